@@ -193,6 +193,7 @@ def run(cfg):
     python_rules(cfg, R)
     from . import rules_C04c
     rules_C04c.history_rule(R, cfg, lib, 'R7')
+    rules_C04c.python_history_rule(R, cfg, 'R8')
     abbrev_buffer_rule(R, lib)
     return R
 
